@@ -36,6 +36,7 @@ func c13FailedAssertions(c *Ctx, g *load.G) {
 		if p == nil {
 			continue
 		}
+		fwd := assertionForwarders(p.TypesInfo, p.Syntax)
 		for _, f := range p.Syntax {
 			fname := g.Fset.Position(f.Pos()).Filename
 			if strings.HasSuffix(fname, "_test.go") || strings.HasSuffix(fname, "/pigeon.go") || strings.HasSuffix(fname, "generated_static_code.go") || strings.HasSuffix(fname, "generated_static_code_range_table.go") {
@@ -46,7 +47,7 @@ func c13FailedAssertions(c *Ctx, g *load.G) {
 				if !ok || fd.Body == nil {
 					continue
 				}
-				uses := assertionUses(p.TypesInfo, fd)
+				uses := assertionUses(p.TypesInfo, fd, fwd)
 				if len(uses) == 0 {
 					continue
 				}
@@ -93,7 +94,7 @@ func funcLabel(fd *ast.FuncDecl) string {
 }
 
 // assertionUses lists the uses of the value variable of every two-result assertion to a nil-able type in fd.
-func assertionUses(info *types.Info, fd *ast.FuncDecl) []assertUse {
+func assertionUses(info *types.Info, fd *ast.FuncDecl, forwarders map[*types.Func]types.Type) []assertUse {
 	type asrt struct {
 		v, ok types.Object
 		at    token.Pos
@@ -104,8 +105,21 @@ func assertionUses(info *types.Info, fd *ast.FuncDecl) []assertUse {
 		if !ok || len(st.Lhs) != 2 || len(st.Rhs) != 1 {
 			return true
 		}
-		ta, ok := ast.Unparen(st.Rhs[0]).(*ast.TypeAssertExpr)
-		if !ok || ta.Type == nil {
+		var asserted types.Type
+		switch rhs := ast.Unparen(st.Rhs[0]).(type) {
+		case *ast.TypeAssertExpr:
+			if rhs.Type != nil {
+				asserted = info.TypeOf(rhs.Type)
+			}
+		case *ast.CallExpr:
+			// a helper that only forwards an assertion (`v, ok := e.(*T); return v, ok`) is one
+			if id, isId := rhs.Fun.(*ast.Ident); isId {
+				if fn, isFn := info.Uses[id].(*types.Func); isFn && forwarders[fn] != nil {
+					asserted = forwarders[fn]
+				}
+			}
+		}
+		if asserted == nil {
 			return true
 		}
 		vi, ok1 := st.Lhs[0].(*ast.Ident)
@@ -113,7 +127,7 @@ func assertionUses(info *types.Info, fd *ast.FuncDecl) []assertUse {
 		if !ok1 || !ok2 || vi.Name == "_" || oi.Name == "_" {
 			return true
 		}
-		switch info.TypeOf(ta.Type).Underlying().(type) {
+		switch asserted.Underlying().(type) {
 		case *types.Pointer, *types.Interface, *types.Map, *types.Slice, *types.Signature:
 		default:
 			return true
@@ -131,6 +145,7 @@ func assertionUses(info *types.Info, fd *ast.FuncDecl) []assertUse {
 	// a variable asserted (or otherwise assigned) more than once: the facts about ok are about the latest assertion
 	// only when nothing was assigned in between; keep the rule exact by demanding single assignment
 	assigned := map[types.Object]int{}
+	assignedAt := map[types.Object][]token.Pos{} // where each assignment statement ends
 	ast.Inspect(fd.Body, func(n ast.Node) bool {
 		switch x := n.(type) {
 		case *ast.AssignStmt:
@@ -138,6 +153,7 @@ func assertionUses(info *types.Info, fd *ast.FuncDecl) []assertUse {
 				if id, ok := l.(*ast.Ident); ok {
 					if o := info.ObjectOf(id); o != nil {
 						assigned[o]++
+						assignedAt[o] = append(assignedAt[o], x.End())
 					}
 				}
 			}
@@ -160,7 +176,19 @@ func assertionUses(info *types.Info, fd *ast.FuncDecl) []assertUse {
 	})
 	var out []assertUse
 	for _, a := range as {
-		stable := assigned[a.v] == 1 && assigned[a.ok] == 1
+		// the value variable is assigned by its assertion only; the ok variable may be shared by several assertions
+		// (`prev, ok := …; if !ok {…}; cur, ok := …`): a test of ok speaks about this assertion when the latest
+		// assignment of ok before the test is this one
+		stable := assigned[a.v] == 1 && len(assignedAt[a.ok]) == assigned[a.ok]
+		epoch := func(at token.Pos) bool {
+			latest := token.NoPos
+			for _, e := range assignedAt[a.ok] {
+				if e <= at && e > latest {
+					latest = e
+				}
+			}
+			return latest == a.at
+		}
 		// parents for the use-site classification
 		var stack []ast.Node
 		ast.Inspect(fd.Body, func(n ast.Node) bool {
@@ -181,9 +209,17 @@ func assertionUses(info *types.Info, fd *ast.FuncDecl) []assertUse {
 					}
 				}
 			}
+			// handed on together with its ok (`return v, ok`): the caller is under the same rule
+			if len(stack) >= 2 {
+				if rs, ok := stack[len(stack)-2].(*ast.ReturnStmt); ok && len(rs.Results) == 2 && rs.Results[0] == ast.Expr(id) {
+					if oid, isId := rs.Results[1].(*ast.Ident); isId && info.Uses[oid] == a.ok {
+						return true
+					}
+				}
+			}
 			u := assertUse{pos: id.Pos(), v: a.v.Name(), ok: a.ok.Name()}
 			if stable {
-				u.guarded = okHolds(info, fd, stack, id, a.ok)
+				u.guarded = okHolds(info, fd, stack, id, a.ok, epoch)
 			}
 			out = append(out, u)
 			return true
@@ -198,10 +234,10 @@ func isNilIdent(e ast.Expr) bool {
 }
 
 // okHolds: is the assertion's ok known to hold where the identifier use is evaluated?
-func okHolds(info *types.Info, fd *ast.FuncDecl, stack []ast.Node, use *ast.Ident, okObj types.Object) bool {
+func okHolds(info *types.Info, fd *ast.FuncDecl, stack []ast.Node, use *ast.Ident, okObj types.Object, epoch func(token.Pos) bool) bool {
 	isOk := func(e ast.Expr) bool {
 		id, ok := ast.Unparen(e).(*ast.Ident)
-		return ok && info.Uses[id] == okObj
+		return ok && info.Uses[id] == okObj && epoch(id.Pos())
 	}
 	// a conjunct to the left in an enclosing && chain
 	for i := len(stack) - 2; i >= 0; i-- {
@@ -272,4 +308,30 @@ func disjuncts(e ast.Expr) []ast.Expr {
 		return append(disjuncts(be.X), disjuncts(be.Y)...)
 	}
 	return []ast.Expr{e}
+}
+
+// assertionForwarders: the functions of the package whose whole body is `v, ok := <param>.(T); return v, ok`.
+func assertionForwarders(info *types.Info, files []*ast.File) map[*types.Func]types.Type {
+	out := map[*types.Func]types.Type{}
+	for _, f := range files {
+		for _, d := range f.Decls {
+			fd, ok := d.(*ast.FuncDecl)
+			if !ok || fd.Body == nil || fd.Recv != nil || len(fd.Body.List) != 2 {
+				continue
+			}
+			as, ok1 := fd.Body.List[0].(*ast.AssignStmt)
+			rs, ok2 := fd.Body.List[1].(*ast.ReturnStmt)
+			if !ok1 || !ok2 || len(as.Lhs) != 2 || len(as.Rhs) != 1 || len(rs.Results) != 2 {
+				continue
+			}
+			ta, ok := ast.Unparen(as.Rhs[0]).(*ast.TypeAssertExpr)
+			if !ok || ta.Type == nil || nospace(as.Lhs[0]) != nospace(rs.Results[0]) || nospace(as.Lhs[1]) != nospace(rs.Results[1]) {
+				continue
+			}
+			if fn, ok := info.Defs[fd.Name].(*types.Func); ok {
+				out[fn] = info.TypeOf(ta.Type)
+			}
+		}
+	}
+	return out
 }
